@@ -37,7 +37,7 @@ def check(pid, tier, seed):
     total, bad, diffs, shapes, samples = 0, [], [], set(), []
     for s, n, ev in runs:
         fin, fimpl, fmodel = [os.path.join(d, x) for x in ("avahi_in.txt", "avahi_impl.txt", "avahi_model.txt")]
-        q = C.run([C.HARNESS, "avahistep", "-seed", str(s), "-n", str(n), "-events", str(ev), "-workers", str(min(n, 200)), "-in", fin, "-impl", fimpl], cwd=d, timeout=3600)
+        q = C.run([C.HARNESS, "avahistep", "-seed", str(s), "-n", str(n), "-events", str(ev), "-workers", str(min(n, 200)), "-in", fin, "-impl", fimpl], cwd=d, timeout=C.engine_timeout())
         if q.returncode != 0:
             R.violation({"property": pid, "kind": "harness avahistep crashed", "detail": (q.stdout or "")[-2000:]}, "crash")
             continue
